@@ -180,7 +180,7 @@ CREATE INDEX IF NOT EXISTS urls_status ON urls (status);`
 		return err
 	}
 	for _, r := range rows {
-		if _, err := db.Exec(`INSERT INTO urls (id, value, via, hops) VALUES (?, ?, ?, ?)`, r.ID, r.Value, r.Via, r.Hops); err != nil {
+		if _, err := db.Exec(`INSERT OR IGNORE INTO urls (id, value, via, hops) VALUES (?, ?, ?, ?)`, r.ID, r.Value, r.Via, r.Hops); err != nil {
 			return fmt.Errorf("preload %q: %w", r.Value, err)
 		}
 	}
